@@ -339,7 +339,7 @@ def obligations(tier):
         obs.append(Ob(f"roundtrip/{sep}/2x2/len1", __name__, "mk", {"nrows": 2, "sep_name": sep, "maxlen": 1}, timeout=1800, group="csv"))
     for op in ROW_OPS:
         tw = ("end",) + (("ties",) if op.startswith("sorted") else ()) + (("transposed",) if op == "transposed" else ())
-        obs.append(Ob(f"rows/{op}", __name__, "mk_rowmodel", {"op": op}, timeout=1800, twins=tw, group="rows"))
+        obs.append(Ob(f"rows/{op}", __name__, "mk_rowmodel", {"op": op}, timeout=1800, twins=tw, group="rows", grade="realised-input"))
     return obs
 
 
